@@ -46,7 +46,21 @@ def fn(kind, cse):
             _cache[key] = sp.lambdify([p], NegativeMomentum(p).doit(), "numpy", cse=cse)
         elif kind == "boost_apply":
             _cache[key] = sp.lambdify([p], ArrayMultiplication(BoostMatrix(p), p).doit(), "numpy", cse=cse)
+        elif kind == "boost_explicit":  # the explicit symbolic matrix, entry by entry
+            _cache[key] = sp.lambdify([p], list(BoostMatrix(p).as_explicit().doit()), "numpy", cse=cse)
+        elif kind == "boostz_explicit":
+            _cache[key] = sp.lambdify([b, n], list(BoostZMatrix(b, n_events=n).as_explicit().doit()), "numpy", cse=cse)
+        elif kind in ("roty_explicit", "rotz_explicit"):
+            cls = RotationYMatrix if kind.startswith("roty") else RotationZMatrix
+            _cache[key] = sp.lambdify([a, n], list(cls(a, n_events=n).as_explicit().doit()), "numpy", cse=cse)
     return _cache[key]
+
+
+def first_event_matrix(entries):
+    """16 entries (scalars or per-event arrays) of an explicit matrix -> the 4x4 matrix of the first event"""
+    vals = [complex(np.asarray(e).reshape(-1)[0]) for e in entries]
+    M = np.array(vals).reshape(4, 4)
+    return M.real if np.abs(M.imag).max() == 0 else M
 
 
 def ref_boost(P):
@@ -113,6 +127,10 @@ def run_case(c):
             i, j = np.unravel_index(np.abs(L - B).argmax(), (4, 4))
             fails.append((f"boost_entry_{i}{j}", f"entry ({i},{j}) = {L[i, j]:.12g}, textbook {B[i, j]:.12g}"))
         fails += lorentz_fails(L, "boost")
+        Lx = first_event_matrix(fn("boost_explicit", cse)(arr))
+        if np.abs(Lx - L).max() > tol_entry:
+            i, j = np.unravel_index(np.abs(Lx - L).argmax(), (4, 4))
+            fails.append((f"explicit_vs_code_boost_{i}{j}", f"as_explicit()[{i},{j}] = {Lx[i, j]:.12g}, generated code {L[i, j]:.12g}"))
         rest = L @ P
         if np.abs(rest - np.array([m, 0, 0, 0])).max() > 1e-9 * nrm * max(1.0, abs(P[0])):
             fails.append(("boost_rest", f"B p = {rest.tolist()} expected ({m},0,0,0)"))
@@ -142,6 +160,9 @@ def run_case(c):
         B[0, 3] = B[3, 0] = -g * beta
         if np.abs(L - B).max() > 1e-9 * g:
             fails.append(("boostz_entry", f"|Bz - textbook| = {np.abs(L - B).max():.3g}"))
+        Lx = first_event_matrix(fn("boostz_explicit", cse)(np.full(batch, beta), batch))
+        if np.abs(Lx - L).max() > 1e-9 * g:
+            fails.append(("explicit_vs_code_boostz", f"|as_explicit() - generated code| = {np.abs(Lx - L).max():.3g}"))
         fails += lorentz_fails(L, "boostz")
     else:
         a1, a2 = c["a1"], c["a2"]
@@ -153,6 +174,9 @@ def run_case(c):
         if np.abs(R1 - ref_rot(kind, a1)).max() > 1e-12:
             fails.append((f"{kind}_entry", f"|R - textbook| = {np.abs(R1 - ref_rot(kind, a1)).max():.3g}"))
         fails += lorentz_fails(R1, kind)
+        Rx = first_event_matrix(fn(kind + "_explicit", cse)(np.full(batch, a1), batch))
+        if np.abs(Rx - R1).max() > 1e-12:
+            fails.append((f"explicit_vs_code_{kind}", f"|as_explicit() - generated code| = {np.abs(Rx - R1).max():.3g}"))
         if np.abs(R1 @ R2 - R12).max() > 1e-12:
             fails.append((f"{kind}_additive", f"|R(a)R(b) - R(a+b)| = {np.abs(R1 @ R2 - R12).max():.3g}"))
     return fails
